@@ -197,7 +197,7 @@ def oracle(ctx, n_cases):
 
 def run(ctx):
     TK.stage(ctx, GEN_FILES, THEOREMS)
-    ev = oracle(ctx, 3000 if ctx.thorough() else 250)
+    ev = oracle(ctx, 15000 if ctx.thorough() else 250)
     ctx.cov['evaluations'] = ev
     ctx.cov['distinct_nontrivial'] = ev
     ctx.cov['rule'] = ('random non-planar point sets of 3..30 points, random rotation + translation, noise 0 / 0.05 / 0.3 A; per set: '
